@@ -684,7 +684,20 @@ func tagOfStruct(et types.Type) *Term {
 		h ^= uint32(k[i])
 		h *= 16777619
 	}
-	return IntLit(1 + int64(h%1000003))
+	id := 1 + int64(h%1000003)
+	if !isModuleStruct(et) {
+		id += 3000000 // ids >= 2000000: not a struct type of the module under verification
+	}
+	return IntLit(id)
+}
+
+func isModuleStruct(t types.Type) bool {
+	n, ok := t.(*types.Named)
+	if !ok || n.Obj() == nil || n.Obj().Pkg() == nil {
+		return false
+	}
+	_, isStruct := n.Underlying().(*types.Struct)
+	return isStruct && strings.HasPrefix(n.Obj().Pkg().Path(), modulePath)
 }
 
 // refTagFact: v == nil || rtag(v) == id(T) for a pointer-to-struct value; True otherwise.
